@@ -142,6 +142,21 @@ theorem PD_rep_inv {G : Grammar} {id : String} {kind : RepKind} {n : Node} {min 
   · exact Or.inr ⟨_, _, _, _, rfl, rfl, by assumption, by assumption, by assumption⟩
   · exact Or.inl ⟨rfl, rfl⟩
 
+/-- a position `.cat i p` only fits a concatenation -/
+theorem PD_cat_inv_any {G : Grammar} {n : Node} {h : List Msg} {i : Nat} {p : Pos} (hp : PD G n h (.cat i p)) :
+    ∃ i' n' h1 h2 p', (Pos.cat i p = Pos.cat i' p') ∧ (∃ id ns, n = .cat id ns ∧ h = h1 ++ h2 ∧ ns[i']? = some n' ∧
+      GM G (.cat id (ns.take i')) h1 ∧ PD G n' h2 p') := by
+  generalize hx : Pos.cat i p = x at hp
+  cases hp <;> cases hx
+  exact ⟨_, _, _, _, _, rfl, _, _, rfl, rfl, by assumption, by assumption, by assumption⟩
+
+/-- a position `.rep k p` only fits a repetition -/
+theorem PD_rep_node {G : Grammar} {n : Node} {h : List Msg} {k : Nat} {p : Pos} (hp : PD G n h (.rep k p)) :
+    ∃ id kind n' min max, n = .rep id kind n' min max ∧ True := by
+  generalize hx : Pos.rep k p = x at hp
+  cases hp <;> cases hx
+  exact ⟨_, _, _, _, _, rfl, trivial⟩
+
 /-- a partial derivation whose spine ends at a message has consumed at least that message -/
 theorem PD_tight_ne {G : Grammar} {n : Node} {h : List Msg} {p : Pos} (hp : PD G n h p) :
     p.tight = true → h ≠ [] := by
